@@ -380,6 +380,11 @@ func assignsTo(info *types.Info, st ast.Stmt, v types.Object) bool {
 }
 
 // poolDiscipline: C10.R6.
+type poolSite struct {
+	fd   *ast.FuncDecl
+	call *ast.CallExpr
+}
+
 func poolDiscipline(c *Ctx, rule string) {
 	for _, rel := range []string{".", "runtime"} {
 		p := c.pkg(rel)
@@ -394,6 +399,7 @@ func poolDiscipline(c *Ctx, rule string) {
 			// a sync.Pool — or a package-local type that wraps one and forwards to it (a typed pool): its methods that call
 			// Get / Put on the wrapped pool stand for Get / Put
 			getNames, putNames := map[string]bool{}, map[string]bool{}
+			var innerGets, innerPuts []poolSite
 			if pv.Type().String() == "sync.Pool" {
 				getNames["Get"], putNames["Put"] = true, true
 			} else {
@@ -422,15 +428,32 @@ func poolDiscipline(c *Ctx, rule string) {
 					if mfd.Recv == nil || recvTypeName(mfd.Recv.List[0].Type) != nt.Obj().Name() || mfd.Body == nil {
 						continue
 					}
+					// a method that only forwards is a Get / Put by another name: its call sites are the sites. A method that
+					// also resets or flushes the object does the pool's discipline itself: the inner call is the site.
+					doesDiscipline := false
+					ast.Inspect(mfd.Body, func(n ast.Node) bool {
+						if call, ok := n.(*ast.CallExpr); ok {
+							if se, ok := call.Fun.(*ast.SelectorExpr); ok && (se.Sel.Name == "Reset" || se.Sel.Name == "Flush") {
+								doesDiscipline = true
+							}
+						}
+						return true
+					})
 					ast.Inspect(mfd.Body, func(n ast.Node) bool {
 						if call, ok := n.(*ast.CallExpr); ok {
 							if se, ok := call.Fun.(*ast.SelectorExpr); ok {
 								if t := info.TypeOf(se.X); t != nil && strings.TrimPrefix(t.String(), "*") == "sync.Pool" {
 									switch se.Sel.Name {
 									case "Get":
-										getNames[mfd.Name.Name] = true
+										if doesDiscipline {
+											innerGets = append(innerGets, poolSite{mfd, call})
+										}
+										getNames[mfd.Name.Name] = !doesDiscipline
 									case "Put":
-										putNames[mfd.Name.Name] = true
+										if doesDiscipline {
+											innerPuts = append(innerPuts, poolSite{mfd, call})
+										}
+										putNames[mfd.Name.Name] = !doesDiscipline
 									}
 								}
 							}
@@ -438,7 +461,7 @@ func poolDiscipline(c *Ctx, rule string) {
 						return true
 					})
 				}
-				if len(getNames) == 0 || len(putNames) == 0 {
+				if len(getNames)+len(innerGets) == 0 || len(putNames)+len(innerPuts) == 0 {
 					continue
 				}
 			}
@@ -475,6 +498,18 @@ func poolDiscipline(c *Ctx, rule string) {
 					}
 					return true
 				})
+			}
+			for _, g := range innerGets {
+				gets = append(gets, struct {
+					fd   *ast.FuncDecl
+					call *ast.CallExpr
+				}{g.fd, g.call})
+			}
+			for _, pt := range innerPuts {
+				puts = append(puts, struct {
+					fd   *ast.FuncDecl
+					call *ast.CallExpr
+				}{pt.fd, pt.call})
 			}
 			if len(gets) == 0 || len(puts) == 0 {
 				c.viol(rule, poolKey+"|get/put", "", fmt.Sprintf("pool %s has %d Get and %d Put sites", poolKey, len(gets), len(puts)))
